@@ -74,6 +74,7 @@ def _case(draw, unit):
     case = {'dim': dim, 'direction': direction, 'wave': w, 'wave_row': w2, 'mode': mode, 'J': J, 'size': size, 'custom': custom,
             'N': draw(st.sampled_from([1, 2])), 'C': draw(st.sampled_from([1, 2])),
             'reused': draw(st.integers(0, 3)) == 0, 'overwrite': draw(st.integers(0, 3)) == 0,
+            'shared_batch': draw(st.integers(0, 2)) == 0,
             'rx': draw(core.recipe_strategy()), 'rg': draw(core.recipe_strategy(kinds=core.RECIPE_KINDS + ['contrast'])), 'k': draw(st.integers(0, 10**6))}
     if direction == 'synthesis':
         names = ['low'] + list(range(J))
@@ -460,6 +461,12 @@ def _synthesis(case, r, per_axis):
     if full and not r.failed and len(measured) == len(sub):
         N, C = case['N'], case['C']
         pd = {k: core.make({**case['rx'], 'seed': case['rx']['seed'] + 7 + i}, (N, C) + shapes[k]) for i, k in enumerate(names)}
+        # one coefficient tensor may be shared by the whole batch (batch size 1, broadcast against the others - a
+        # learned lowpass, say): its gradient is the sum over the batch
+        shared = sub[case['k'] % len(sub)] if (N > 1 and case.get('shared_batch')) else None
+        if shared is not None:
+            pd[shared] = pd[shared][:1]
+            r.label('coefficient_shared_by_batch')
         tsd = {k: torch.tensor(pd[k]).requires_grad_(k in sub) for k in names}
         y = core.libcall(inv, (tsd['low'], [tsd[j] for j in range(J)]))
         gv = core.make(case['rg'], y.shape)
@@ -469,6 +476,11 @@ def _synthesis(case, r, per_axis):
                 r.fail('none_grad_dense', '%s received None on the (N,C) call' % (k,))
                 continue
             wantd = np.einsum('nco,oi->nci', gv.reshape(N, C, -1), measured[k]).reshape((N, C) + shapes[k])
+            if k == shared:
+                wantd = wantd.sum(axis=0, keepdims=True)
+                if tuple(gk.shape) != wantd.shape:
+                    r.fail('shared_batch_grad_shape', 'gradient of the batch-shared %s has shape %s' % (k, tuple(gk.shape)))
+                    continue
             told = 1e-9 * max(g * core.maxabs(gv), core.maxabs(wantd), 1e-300)
             okc, err = core.close(gk.numpy(), wantd, told)
             if not okc:
